@@ -14,6 +14,7 @@
     lay.comment <src> <pos> <w> <body>        commentInsertOK with the definition's first comment pair                → true|false
     lay.cline <src> <pos> <ind> <body>        commentLineInsertOK                                                      → true|false
     lay.tcomment <src> <pos> <body>           commentTightOK (comment directly after a token), first comment pair        → true|false
+    lay.lead <pre> <s>                        leadOK (white space / one comment line in front of the first token)        → true|false
     lay.tail <a> <run> <run'>                 the checker of C13.layout_tail_by_position (tailOK for both tails)        → true|false
 
   tok = <type value>:<hex string>:<bl>,<bc>,<el>,<ec>
@@ -23,6 +24,7 @@ import Tranp.Model.Lexer
 import Tranp.Generated.TokenDef
 import Tranp.Lemmas.Lexer
 import Tranp.Lemmas.LexerTail
+import Tranp.Lemmas.LexerLead
 import Tranp.Lemmas.LexerTight
 
 namespace Tranp.Driver.Lex
@@ -85,6 +87,10 @@ def step (st : St) : List String → St × String
   | ["map", src, b, e] =>
     match Str.unhex src, b.toNat?, e.toNat? with
     | some s, some b, some e => (st, s!"ok {showMap (mkMap s b e)}")
+    | _, _, _ => (st, "bad-op")
+  | ["lay.lead", pre, src] =>
+    match Str.unhex pre, Str.unhex src, st.d.comment.head? with
+    | some pre, some s, some pair => (st, toString (leadOK st.d pre s pair))
     | _, _, _ => (st, "bad-op")
   | [op, src, b] =>
     match Str.unhex src, b.toNat? with
